@@ -19,6 +19,10 @@ def run(chk, tier):
     chk.rule("R-UNION", "the type-specific attribute union obj->attr is accessed only under a matching obj->type: every self-discriminating function is explored once per object type (21 values, product for two objects) by seeded constant propagation; guards are evaluated, not pattern-matched")
     nun, nuf = union.run(chk, P, units=('diff.c',))
     chk.floor("R-UNION", "union accesses judged", nun, 6)
+    chk.rule("R-BUFSIZE", "a heap buffer handed to an snprintf-like producer (any function with an adjacent writable (char *, size) parameter pair) is handed over with exactly its allocated size (allocation and size expressions compared after resolving named temporaries and realloc aliases)")
+    import bufsize
+    nbs = bufsize.run(chk, P, units=('topology-xml-nolibxml.c',))
+    chk.floor("R-BUFSIZE", "heap buffers handed to producers", nbs, 1)
     chk.rule("R-FLAGS", "flag words of build/apply (see C10)")
     ns, nw = flags.run(chk, P, "C16", effects=E)
     chk.floor("R-FLAGS", "entry points", ns, 2)
@@ -26,7 +30,8 @@ def run(chk, tier):
     N = nullness.Nullness(P)
     v, us = N.run(chk, "topology-xml.c", funcs=["hwloc__xml_import_diff_one", "hwloc__xml_import_diff"])
     chk.floor("R-NULLATTR", "optional pointers in hwloc__xml_import_diff_one", v, 5)
-    chk.decided += ['diff compares type-specific attributes only under the matching object type of both objects',
+    chk.decided += ['the diff XML buffer export re-runs with the size of the reallocated buffer',
+                    'diff compares type-specific attributes only under the matching object type of both objects',
                     "a diff that build returns can be applied and exported: no NULL value strings are produced (all producer sites, all paths)",
                     "the N-th entry failing leaves the topology as before: apply_diff_one never fails after writing; roll-back re-applies the prefix with REVERSE flipped; returns -N",
                     "REVERSE symmetry of the three arms", "flag validation and EPERM/EINVAL prefixes", "diff XML import never dereferences a missing attribute"]
